@@ -95,9 +95,10 @@ public:
   size_t nall = 0;           // all PHRQ_io events of the current call
   long first_stop = -1;      // index (in nall order) of the first error event with stop
   size_t after_stop = 0;     // events routed after it
+  size_t nerrwarn = 0;       // error + warning events (ew keeps the first 20000)
   std::vector<std::string> ew;   // error / warning events with the engine's simulation number
   void tick() { if (first_stop >= 0) ++after_stop; ++nall; }
-  void begin_call() { nall = 0; first_stop = -1; after_stop = 0; ew.clear(); }
+  void begin_call() { nall = 0; first_stop = -1; after_stop = 0; nerrwarn = 0; ew.clear(); }
   int sim() { return TestIPhreeqc::simulation(this); }
   virtual void output_msg(const char* s) { tick(); IPhreeqc::output_msg(s); }
   virtual void log_msg(const char* s) { tick(); IPhreeqc::log_msg(s); }
@@ -107,14 +108,14 @@ public:
   virtual void fpunchf(const char* n, const char* f, int d) { tick(); IPhreeqc::fpunchf(n, f, d); }
   virtual void fpunchf_end_row(const char* f) { tick(); IPhreeqc::fpunchf_end_row(f); }
   virtual void error_msg(const char* s, bool stop = false) {
-    tick();
-    if (ew.size() < 5000) ew.push_back("EV err " + std::to_string(flags()) + " " + (stop ? "1 " : "0 ") + hx::hex(s) + " " + std::to_string(sim()));
+    tick(); ++nerrwarn;
+    if (ew.size() < 20000) ew.push_back("EV err " + std::to_string(flags()) + " " + (stop ? "1 " : "0 ") + hx::hex(s) + " " + std::to_string(sim()));
     if (stop && first_stop < 0) first_stop = (long)nall - 1;
     IPhreeqc::error_msg(s, stop);
   }
   virtual void warning_msg(const char* s) {
-    tick();
-    if (ew.size() < 5000) ew.push_back("EV warn " + std::to_string(flags()) + " " + hx::hex(s) + " " + std::to_string(sim()));
+    tick(); ++nerrwarn;
+    if (ew.size() < 20000) ew.push_back("EV warn " + std::to_string(flags()) + " " + hx::hex(s) + " " + std::to_string(sim()));
     IPhreeqc::warning_msg(s);
   }
 };
@@ -239,8 +240,8 @@ static void child_main(const Case& c) {
     A->begin_call();
     int r = call_api(A, c.ops[k], exc);
     for (auto& e : A->ew) fprintf(R, "%s\n", e.c_str());
-    fprintf(R, "OPR %zu ret=%d exc=%s nev=%zu firststop=%ld afterstop=%zu ierr=%d erron=%d errstron=%d throw=%s\n", k, r, exc.c_str(), A->nall,
-            A->first_stop, A->after_stop, TestIPhreeqc::get_input_errors(A), (int)A->GetErrorOn(), (int)A->GetErrorStringOn(),
+    fprintf(R, "OPR %zu ret=%d exc=%s nev=%zu firststop=%ld afterstop=%zu ierr=%d erron=%d errstron=%d trunc=%d throw=%s\n", k, r, exc.c_str(), A->nall,
+            A->first_stop, A->after_stop, TestIPhreeqc::get_input_errors(A), (int)A->GetErrorOn(), (int)A->GetErrorStringOn(), (int)(A->nerrwarn > A->ew.size()),
             exc == "-" ? "-" : throw_site().c_str());
     fprintf(R, "V %zu errstr %s\n", k, hx::hex(A->GetErrorString()).c_str());
     line_view("errlines", k, A->GetErrorStringLineCount(), [&](int i) { return std::string(A->GetErrorStringLine(i)); });
